@@ -656,6 +656,21 @@ func (p *Proxy) handle(ctx *Context, conn net.Conn, brw *bufio.ReadWriter) error
 		return errClose
 	}
 
+	// A response that cannot have a body (the answer to HEAD, a 204, a 304) has
+	// nothing to frame on the way to the client. http.Response.Write still ends
+	// one that the origin marked "Transfer-Encoding: chunked" with last-chunk
+	// bytes - which the client takes for the start of the next response - and
+	// announces "Connection: close" for one of unknown length (a HEAD answer
+	// without Content-Length) although the connection is kept. Neither applies:
+	// drop the hop-by-hop coding and do not fall back to close-delimiting
+	// (Uncompressed is the switch Response.Write has for that).
+	if req.Method == "HEAD" || res.StatusCode == http.StatusNoContent || res.StatusCode == http.StatusNotModified {
+		res.TransferEncoding = nil
+		if res.ContentLength < 0 {
+			res.Uncompressed = true
+		}
+	}
+
 	var closing error
 	if req.Close || res.Close || p.Closing() {
 		log.Debugf("martian: received close request: %v", req.RemoteAddr)
